@@ -319,7 +319,9 @@ def _main(prop, args, seed, root, t0):
     try:
         for f in findings:
             wit = f.get('witness')
-            if wit is None:
+            if wit is None or f.get('property') != prop:
+                # a finding owned by another property (shared root cause): its signature is honoured
+                # here, its witness is replayed by the owning property's check
                 continue
             got = _replay_failure(mod, wit)
             if f.get('status') == 'fixed':
